@@ -169,7 +169,12 @@ fn repertoire(enc_name: &str) -> Vec<char> {
     out
 }
 
-fn extraction_case(r: &mut Rng, enc_name: &str, rep: &[char]) -> Option<(String, String)> {
+type Shown = Vec<(String, bool)>;
+
+/// pages showing text in `enc_name` through font F1. The font comes from the Resources the pages inherit, or - one
+/// document in three - from Resources of the page itself, while the inherited Resources then carry a different font
+/// under the same name (the page's own entry is the one in effect, ISO 32000-1 7.7.3.4).
+fn build_extraction_doc(r: &mut Rng, enc_name: &str, rep: &[char]) -> Option<(Document, Shown)> {
     if rep.is_empty() {
         return None;
     }
@@ -187,7 +192,16 @@ fn extraction_case(r: &mut Rng, enc_name: &str, rep: &[char]) -> Option<(String,
     let mut doc = Document::with_version("1.5");
     let pages_id = doc.new_object_id();
     let font_id = doc.add_object(font(enc_name));
-    let res_id = doc.add_object(dictionary! { "Font" => dictionary! { "F1" => font_id } });
+    let own_resources = r.chance(1, 3);
+    let inherited_font = if own_resources {
+        let others: Vec<&str> = ENCODINGS.iter().cloned().filter(|e| *e != enc_name).collect();
+        let other: &str = *r.pick(&others[..]);
+        doc.add_object(font(other))
+    } else {
+        font_id
+    };
+    let res_id = doc.add_object(dictionary! { "Font" => dictionary! { "F1" => inherited_font } });
+    let own_res_id = doc.add_object(dictionary! { "Font" => dictionary! { "F1" => font_id } });
     let tmp_doc = Document::new();
     let font_dict = font(enc_name);
     let enc = font_dict.get_font_encoding(&tmp_doc).ok()?;
@@ -212,44 +226,62 @@ fn extraction_case(r: &mut Rng, enc_name: &str, rep: &[char]) -> Option<(String,
             let _ = st.compress();
         }
         let cid = doc.add_object(st);
-        let pid = doc.add_object(dictionary! { "Type" => "Page", "Parent" => pages_id, "Contents" => cid });
+        let mut page = dictionary! { "Type" => "Page", "Parent" => pages_id, "Contents" => cid };
+        if own_resources {
+            if r.bool() {
+                page.set("Resources", Object::Reference(own_res_id));
+            } else {
+                page.set("Resources", dictionary! { "Font" => dictionary! { "F1" => font_id } });
+            }
+        }
+        let pid = doc.add_object(page);
         kids.push(Object::Reference(pid));
         expect.push((text, use_tj_array));
     }
     doc.objects.insert(pages_id, Object::Dictionary(dictionary! { "Type" => "Pages", "Kids" => kids, "Count" => n_pages as i64, "Resources" => res_id }));
     let cat = doc.add_object(dictionary! { "Type" => "Catalog", "Pages" => pages_id });
     doc.trailer.set("Root", cat);
-    let check = |d: &Document, when: &str| -> Option<(String, String)> {
-        for (i, (exp, tj_array)) in expect.iter().enumerate() {
-            match crate::props::catch(|| d.extract_text(&[(i + 1) as u32])) {
-                Err(p) => return Some((format!("extract/{}/panic", enc_name), format!("extract_text panicked {}: {}", when, p))),
-                Ok(Err(e)) => return Some((format!("extract/{}/error", enc_name), format!("extract_text failed {}: {:?}", when, e))),
-                Ok(Ok(got)) => {
-                    // the extractor ends a text object with a line break (unless the text already ends in one) and
-                    // puts one blank after a TJ array; beyond these separators the text has to be exactly what is shown
-                    let mut accepted = vec![exp.clone(), format!("{}\n", exp)];
-                    if *tj_array {
-                        accepted.push(format!("{} ", exp));
-                        accepted.push(format!("{} \n", exp));
-                    }
-                    if !accepted.contains(&got) {
-                        return Some((format!("extract/{}/text", enc_name), format!("page {} {}: extract_text returns {:?}, the page shows {:?}", i + 1, when, got, exp)));
-                    }
+    Some((doc, expect))
+}
+
+fn check_extraction(d: &Document, expect: &Shown, enc_name: &str, when: &str) -> Option<(String, String)> {
+    for (i, (exp, tj_array)) in expect.iter().enumerate() {
+        match crate::props::catch(|| d.extract_text(&[(i + 1) as u32])) {
+            Err(p) => return Some((format!("extract/{}/panic", enc_name), format!("extract_text panicked {}: {}", when, p))),
+            Ok(Err(e)) => return Some((format!("extract/{}/error", enc_name), format!("extract_text failed {}: {:?}", when, e))),
+            Ok(Ok(got)) => {
+                // the extractor ends a text object with a line break (unless the text already ends in one) and
+                // puts one blank after a TJ array; beyond these separators the text has to be exactly what is shown
+                let mut accepted = vec![exp.clone(), format!("{}\n", exp)];
+                if *tj_array {
+                    accepted.push(format!("{} ", exp));
+                    accepted.push(format!("{} \n", exp));
+                }
+                if !accepted.contains(&got) {
+                    return Some((format!("extract/{}/text", enc_name), format!("page {} {}: extract_text returns {:?}, the page shows {:?}", i + 1, when, got, exp)));
                 }
             }
         }
-        None
-    };
-    if let Some(v) = check(&doc, "before saving") {
-        return Some(v);
     }
+    None
+}
+
+/// (signature, what, self-contained witness: the saved file and what its pages show)
+fn extraction_case(r: &mut Rng, enc_name: &str, rep: &[char]) -> Option<(String, String, Value)> {
+    let (mut doc, expect) = build_extraction_doc(r, enc_name, rep)?;
     let mut bytes = vec![];
-    if doc.save_to(&mut bytes).is_err() {
-        return Some((format!("extract/{}/save", enc_name), "save_to failed".into()));
+    let saved = doc.save_to(&mut bytes).is_ok();
+    let witness = json!({"kind":"extract-doc","encoding":enc_name,"file_hex":hex(&bytes),
+        "shown":expect.iter().map(|(t, a)| json!({"utf16":t.encode_utf16().collect::<Vec<u16>>(),"tj_array":a})).collect::<Vec<_>>()});
+    if let Some((s, w)) = check_extraction(&doc, &expect, enc_name, "before saving") {
+        return Some((s, w, witness));
+    }
+    if !saved {
+        return Some((format!("extract/{}/save", enc_name), "save_to failed".into(), witness));
     }
     match Document::load_mem(&bytes) {
-        Err(e) => Some((format!("extract/{}/reload", enc_name), format!("reload failed: {:?}", e))),
-        Ok(l) => check(&l, "after save + load"),
+        Err(e) => Some((format!("extract/{}/reload", enc_name), format!("reload failed: {:?}", e), witness)),
+        Ok(l) => check_extraction(&l, &expect, enc_name, "after save + load").map(|(s, w)| (s, w, witness)),
     }
 }
 
@@ -315,8 +347,8 @@ pub fn run(cfg: &RunCfg) -> (PropMeta, ShardOut, Map<String, Value>) {
             out.evaluations += 1;
             out.count(&format!("extraction_documents:{}", name));
             out.digests.insert(crate::prng::fnv(&format!("ext:{}:{}", shard, i)));
-            if let Some((sig, what)) = extraction_case(&mut r, name, rep) {
-                out.finding(Finding { signature: format!("C16/{}", sig), what, witness: json!({"kind":"extract","seed":cfg.seed,"shard":shard,"index":i}) });
+            if let Some((sig, what, witness)) = extraction_case(&mut r, name, rep) {
+                out.finding(Finding { signature: format!("C16/{}", sig), what, witness });
             }
         }
         for (name, rep) in &reps {
@@ -326,7 +358,7 @@ pub fn run(cfg: &RunCfg) -> (PropMeta, ShardOut, Map<String, Value>) {
     });
     let meta = PropMeta {
         level: "exploration",
-        rule: "(a) every Unicode scalar value (1,112,064) as a one-character string through text_string -> decode_text_string with the representation rule checked, plus random strings (ASCII, C0 controls, BMP, astral, BOM characters, whole range), each also as UTF-8-with-BOM and UTF-16BE input; malformed inputs (odd length, lone surrogates, truncated UTF-8) must not panic. (b) the five one-byte encodings reachable through get_font_encoding x all 256 bytes: decode never fails, decode(encode(decode(b))) == decode(b), and the cells 0x20-0x7E / 0xA1-0xFF agree with the published WinAnsi (cp1252), MacRoman (Apple/Annex D) and PDFDoc (Annex D) tables. (c) generated documents whose pages show encode_text(enc, text) with Tj or TJ (literal or hex strings, optional compression): extract_text returns the text - leading and trailing blanks included; only the line break that ends a text object and the blank after a TJ array are allowed in addition - before and after save_to + load_mem. distinct = distinct random strings / extraction documents.".into(),
+        rule: "(a) every Unicode scalar value (1,112,064) as a one-character string through text_string -> decode_text_string with the representation rule checked, plus random strings (ASCII, C0 controls, BMP, astral, BOM characters, whole range), each also as UTF-8-with-BOM and UTF-16BE input; malformed inputs (odd length, lone surrogates, truncated UTF-8) must not panic. (b) the five one-byte encodings reachable through get_font_encoding x all 256 bytes: decode never fails, decode(encode(decode(b))) == decode(b), and the cells 0x20-0x7E / 0xA1-0xFF agree with the published WinAnsi (cp1252), MacRoman (Apple/Annex D) and PDFDoc (Annex D) tables. (c) generated documents whose pages show encode_text(enc, text) with Tj or TJ (literal or hex strings, optional compression; the font reached through inherited Resources, or through the page's own Resources while the inherited ones name a font of another encoding F1 as well): extract_text returns the text - leading and trailing blanks included; only the line break that ends a text object and the blank after a TJ array are allowed in addition - before and after save_to + load_mem. distinct = distinct random strings / extraction documents.".into(),
         assumptions: vec![
             "published-table cells where Apple's MacRoman and Annex D differ (0xDB, 0xBD, 0xC6, 0xB5, 0xCA, 0xF0) and 0xAD accept either value or are skipped".into(),
             "extraction compares modulo trailing white-space (the extractor appends a space after TJ arrays and a newline at ET)".into(),
@@ -346,6 +378,18 @@ pub fn replay(w: &Value) -> Vec<Finding> {
             let u: Vec<u16> = w["utf16"].as_array().map(|a| a.iter().map(|x| x.as_u64().unwrap_or(0) as u16).collect()).unwrap_or_default();
             let s = String::from_utf16_lossy(&u);
             check_text_string(&s).or_else(|| check_foreign_inputs(&s)).map(|(sg, what)| Finding { signature: format!("C16/{}", sg), what, witness: w.clone() }).into_iter().collect()
+        }
+        Some("extract-doc") => {
+            let name = w["encoding"].as_str().unwrap_or("WinAnsiEncoding").to_string();
+            let bytes = unhex(w["file_hex"].as_str().unwrap_or(""));
+            let shown: Shown = w["shown"]
+                .as_array()
+                .map(|a| a.iter().map(|x| (String::from_utf16_lossy(&x["utf16"].as_array().map(|u| u.iter().map(|c| c.as_u64().unwrap_or(0) as u16).collect::<Vec<u16>>()).unwrap_or_default()), x["tj_array"].as_bool().unwrap_or(false))).collect())
+                .unwrap_or_default();
+            match Document::load_mem(&bytes) {
+                Err(e) => vec![Finding { signature: format!("C16/extract/{}/reload", name), what: format!("{:?}", e), witness: w.clone() }],
+                Ok(d) => check_extraction(&d, &shown, &name, "witness file").map(|(sg, what)| Finding { signature: format!("C16/{}", sg), what, witness: w.clone() }).into_iter().collect(),
+            }
         }
         Some("table") => {
             let mut o = ShardOut::default();
